@@ -77,16 +77,17 @@ def cutout(desc):
     centre = prot[desc['i']][1]
     r2 = (desc['r'] * 1000) ** 2
     cpts = [(a.x, a.y, a.z) for a in centre if a.name not in gen.BACKBONE] or [(a.x, a.y, a.z) for a in centre]
-    items, last_chain = [], None
-    for rk, atoms in res:
+    items, last_chain, last_idx = [], None, None
+    for idx, (rk, atoms) in enumerate(res):
         if atoms[0].resname in ('HOH',):
             continue
         near = any((a.x - c[0]) ** 2 + (a.y - c[1]) ** 2 + (a.z - c[2]) ** 2 < r2 for a in atoms for c in cpts)
         if not near:
             continue
-        if last_chain is not None and rk[0] != last_chain:
+        # TER between chains and at every gap, so that each fragment starts with a proper N-terminus
+        if last_chain is not None and (rk[0] != last_chain or idx != last_idx + 1):
             items.append('TER\n')
-        last_chain = rk[0]
+        last_chain, last_idx = rk[0], idx
         for a in atoms:
             b = a.clone()
             b.alt = ' '
